@@ -570,7 +570,15 @@ func run(c *hx.Ctx) error {
 	fails := map[int]failing{}
 	var sigOrder []string
 	firstLegacy := map[string]int{}
-	shortestForms := map[string]int{}
+	shortestForms := map[string]int{}   // signature + class of the original case -> shortest case
+	formsBuckets := map[string][]string{} // signature -> its keys in shortestForms
+	sigOfCase := func(bb lexh.BuildCase) string {
+		r2 := buildOne(bb)
+		if cl := buildClause(r2); cl != "" {
+			return cl + "|" + normMsg(r2.Msg) + "|" + r2.Site
+		}
+		return ""
+	}
 	size := func(b lexh.BuildCase) int {
 		n := 0
 		for _, d := range b.Files {
@@ -617,7 +625,7 @@ func run(c *hx.Ctx) error {
 		sig := sigOf(clause, br)
 		fails[i] = failing{clause, sig, br}
 		_, l := firstLegacy[sig]
-		_, f := shortestForms[sig]
+		_, f := formsBuckets[sig]
 		if !l && !f {
 			sigOrder = append(sigOrder, sig)
 		}
@@ -627,8 +635,21 @@ func run(c *hx.Ctx) error {
 			}
 		} else {
 			res.Hist("forms-failing-" + formCases[i-formsAt].Role)
-			if j, ok := shortestForms[sig]; !ok || size(b) < size(builds[j]) {
-				shortestForms[sig] = i
+			// explain the ORIGINAL case first: per signature one case is shrunk for every class that explains originals
+			// and one for those that no class explains (a regression under the signature of a recorded finding)
+			cls := "unexplained"
+			if !strings.HasPrefix(br.Status, "CRASH") && br.Status != "HANG" && br.Status != "OOM" {
+				if id := classKnown(b, sig, knownSig, c.HasFinding, sigOfCase); id != "" {
+					cls = id
+				}
+			}
+			res.Hist("forms-failing-class-" + cls)
+			key := sig + "\x00" + cls
+			if _, ok := shortestForms[key]; !ok {
+				formsBuckets[sig] = append(formsBuckets[sig], key)
+			}
+			if j, ok := shortestForms[key]; !ok || size(b) < size(builds[j]) {
+				shortestForms[key] = i
 			}
 		}
 	}
@@ -807,8 +828,8 @@ func run(c *hx.Ctx) error {
 		if i, ok := firstLegacy[sig]; ok {
 			shrinkAndReport(i)
 		}
-		if i, ok := shortestForms[sig]; ok {
-			shrinkAndReport(i)
+		for _, key := range formsBuckets[sig] {
+			shrinkAndReport(shortestForms[key])
 		}
 	}
 	res.Histogram["build-failing-signatures"] = len(sigOrder)
